@@ -27,3 +27,70 @@ Definition agree_fast (c : case4) : bool :=
 Definition ok_fork (thr gd ms : N) (sh : shape) (pre : list ev) (f : list call) (orecs : list seen5) : bool :=
   let '(s, _) := exec (plain thr gd ms sh) pre (init, []) in
   list_eqb seen_eqb orecs (map ideal (flat_map (recs thr gd (ridx s)) f)).
+
+(* ---------------------------------------------------------------- C05 checkers *)
+(* the filter-relevant part of an observation: in/out counts, depth, max depth, time, size, record_idx *)
+Definition fpart (o : obs) : Z * Z * N * N * N * N * N :=
+  let '(a1, a2, a3, a4, a5, a6, _, a8, _) := o in (a1, a2, a3, a4, a5, a6, a8).
+Definition fpart_eqb (x y : Z * Z * N * N * N * N * N) : bool :=
+  let '(a1, a2, a3, a4, a5, a6, a8) := x in let '(b1, b2, b3, b4, b5, b6, b8) := y in
+  (a1 =? b1)%Z && (a2 =? b2)%Z && (a3 =? b3) && (a4 =? b4) && (a5 =? b5) && (a6 =? b6) && (a8 =? b8).
+
+Definition obs0 : obs := obs_of init.
+
+(* after every Leave the filter state equals the state before the matching Enter *)
+Fixpoint ok_restore_go (es : list ev) (os : list obs) (prev : obs) (stk : list obs) : bool :=
+  match es, os with
+  | [], _ => true
+  | Enter _ _ :: er, o :: orr => ok_restore_go er orr o (prev :: stk)
+  | Leave _ :: er, o :: orr =>
+      match stk with
+      | before :: stk' => fpart_eqb (fpart o) (fpart before) && ok_restore_go er orr o stk'
+      | [] => false
+      end
+  | ForkChild :: er, o :: orr => ok_restore_go er orr o stk
+  | _, [] => false
+  end.
+Definition ok_restore (es : list ev) (os : list obs) : bool := ok_restore_go es os obs0 [].
+
+(* is the history inside the known defect class?  (-pg shape: an entry is rejected after it changed
+   the filter state) - decided by the model *)
+Fixpoint leaky_go (c : cfg) (es : list ev) (d : dstate) : bool :=
+  match es with
+  | [] => false
+  | e :: r =>
+      let '(s, hk) := d in
+      let here := match e with
+                  | Enter a t =>
+                      match shp c with
+                      | PG => let '(s1, v, _, _) := entry_check c s a in
+                              match v with
+                              | V_IN => false
+                              | _ => negb (fpart_eqb (fpart (obs_of s1)) (fpart (obs_of s)))
+                              end
+                      | CYG => false
+                      end
+                  | _ => false
+                  end in
+      here || leaky_go c r (dstep c d e)
+  end.
+Definition leaky (c : cfg) (es : list ev) : bool := leaky_go c es (init, []).
+
+(* the observed stream is properly nested: depths follow the open recorded calls, EXIT matches ENTRY *)
+Fixpoint scan5 (d : N) (stk : list N) (l : list seen5) : bool :=
+  match l with
+  | [] => (d =? 0)
+  | (_, ty, mg, dep, ad) :: t =>
+      (mg =? RECORD_MAGIC) &&
+      (if ty =? UFTRACE_ENTRY then (dep =? d) && scan5 (d + 1) (ad :: stk) t
+       else if ty =? UFTRACE_EXIT then
+         match stk with
+         | a :: s => (0 <? d) && (dep =? d - 1) && (a =? ad) && scan5 (d - 1) s t
+         | [] => false
+         end
+       else false)
+  end.
+Definition ok_nested (l : list seen5) : bool := scan5 0 [] l.
+
+Definition has_switch (tr : list (N * trig)) : bool :=
+  existsb (fun p => t_trace_on (snd p) || t_trace_off (snd p)) tr.
